@@ -456,7 +456,8 @@ def finish_check(pid, seed, tier, parts, wall, sizes):
             # a hang is confirmed by the replay itself not finishing within the limit
             try:
                 rc = subprocess.call([sys.executable, os.path.abspath(__file__), "replay", r["replay"]],
-                                     stdout=subprocess.DEVNULL, cwd=VERIF, timeout=2400)
+                                     stdout=subprocess.DEVNULL, cwd=VERIF,
+                                     timeout=int(os.environ.get("VERIF_HANG_LIMITS", "300,2400").split(",")[-1]))
                 print("NOTE: run %s exceeded the wall-clock limits in the batch but completed on replay: "
                       "treated as load, not as a hang" % r["idx"])
             except subprocess.TimeoutExpired:
